@@ -14,11 +14,13 @@ KIN = "gbasis.integrals.kinetic_energy.KineticEnergyIntegral.construct_array_con
 
 def run(repo, R):
     R.rule("INPUTS", "the public wrapper uses its parameters as given: no path replaces one by a filtered/re-ordered/scaled/defaulted copy")
-    from ..flow import check_wrapper_inputs
+    R.rule("DISPATCH", "the wrapper assembles Cartesian, spherical, mixed and transformed results through the four assembly routes, same keywords on each")
+    from ..flow import check_wrapper_inputs, check_wrapper_dispatch
     for _w in ['gbasis.integrals.kinetic_energy.kinetic_energy_integral']:
         _wf = repo.func(_w)
         R.note_function(_wf.qualname)
         check_wrapper_inputs(repo, _wf, R)
+        check_wrapper_dispatch(repo, _wf, R, "DISPATCH")
     R.rule("D", "derivative recurrence D[k] = 2 alpha_a D[k-1, i+1] - i D[k-1, i-1] on the first shell's index")
     R.rule("D0", "order 0 of the derivative table is the overlap table of (shell one: A, alpha) against (shell two: B, beta)")
     R.rule("PAD", "the overlap table is padded by the maximum derivative order and the returned cut stays inside the valid region")
